@@ -10,6 +10,27 @@ DENY = json.load(open(os.path.join(VERIF, "spec", "nondeterminism_denylist.json"
 WRITER_TYPES = ("e57_writer::E57Writer<", "pc_writer::PointCloudWriter<", "image_writer::ImageWriter<", "extension::Extension")
 
 
+HASH_ITER = re.compile(DENY["hash_iterator_types"])
+
+
+def hash_order_call(c, gargs=()):
+    """a call that reveals the iteration order of a hash collection: an order-revealing method whose receiver is a
+    HashMap / HashSet (inherent or through IntoIterator / Debug), or any callee instantiated with one of the hash
+    iterator types. Membership operations (new, insert, contains, get, remove, len, entry, ...) are deterministic."""
+    from panic_rules import receiver_head, _last_segment
+    if HASH_ITER.search(c):
+        return True
+    if receiver_head(c) in DENY["hash_collections"] and _last_segment(c) in DENY["hash_order_methods"]:
+        return True
+    # Debug-formatting a hash collection: core::fmt::rt::Argument::new_debug::<HashSet<..>>
+    if _last_segment(c) in ("new_debug", "new_debug_noop") and any((h + "<") in g for g in gargs for h in DENY["hash_collections"]):
+        return True
+    # a generic callee instantiated with a hash iterator (collect::<Vec<_>>() over map.keys(), ...)
+    if any(HASH_ITER.search(g) for g in gargs):
+        return True
+    return False
+
+
 def writer_roots(prog):
     return sorted(p for p, f in prog.fns.items() if f.public and any(f.self_ty.startswith(t) for t in WRITER_TYPES))
 
@@ -31,16 +52,16 @@ def no_hidden_inputs(ctx, prog, rule, roots=None, floors=True):
         for bi, t in f.calls():
             n_calls += 1
             for c in {callee_of(t), callee_syntactic(t)}:
-                if any(r.search(c) for r in cre):
+                if any(r.search(c) for r in cre) or hash_order_call(c, t["callee"].get("args") or ()):
                     hits.append((p, c, f.file_line(bi)))
         for i, l in enumerate(f.locals):
-            if any(x in l["ty"] for x in tre):
+            if any(x in l["ty"] for x in tre) or HASH_ITER.search(l["ty"]):
                 hits.append((p, "local of type " + l["ty"], "%s:%d" % (f.span["file"], f.span["l0"])))
     for p, c, where in hits:
         ctx.ob(rule, "hidden-input/%s/%s" % (short(p), short(c) if "::" in c else c[:40]), False, "%s (reachable from the writer API) uses %s: its result does not depend on the arguments alone, so writing the same content twice may differ" % (p, c), where=where)
     ctx.ob(rule, "no-hidden-inputs", not hits, "%d writer entry points reach %d functions with %d calls; %d of them match the nondeterminism deny-list" % (len(roots), len(reach_set), n_calls, len(hits)))
     if floors:
-        ctx.floor(rule, "writer entry points", len(roots), 40, semantic=False)
+        ctx.floor(rule, "writer entry points", len(roots), 25, semantic=False)
         ctx.floor(rule, "functions reachable from the writer API", len(reach_set), 100, semantic=False)
     return hits
 
@@ -49,7 +70,8 @@ def controls(ctx):
     import framework
     prog, info = load_program("controls", "controls")
     ctx.configs["controls"] = info
-    for name, expect in (("nondet::stamp_now", True), ("nondet::hash_order", True), ("nondet::pure", False)):
+    for name, expect in (("nondet::stamp_now", True), ("nondet::hash_order", True), ("nondet::hash_debug", True), ("nondet::hash_into_iter", True),
+                         ("nondet::pure", False), ("nondet::hash_membership", False)):
         sub = framework.Ctx("CTL", ctx.tier)
         hits = no_hidden_inputs(sub, prog, "R1", roots=[name], floors=False)
         ctx.control("R1", name, bool(hits), expect)
